@@ -525,6 +525,18 @@ func (u *Unit) intrinsic(st *State, fr *Frame, in *ssa.Call, fn *ssa.Function, a
 	case "math.Floor":
 		a := args[0].(FloatV)
 		return one(FloatV{FPFloor(a.T), a.Bits})
+	case "math.Ceil": // toward +Inf
+		a := args[0].(FloatV)
+		return one(FloatV{FPRoundTo(RTP, a.T), a.Bits})
+	case "math.Trunc": // toward zero
+		a := args[0].(FloatV)
+		return one(FloatV{FPRoundTo(RTZ, a.T), a.Bits})
+	case "math.Round": // nearest, halves away from zero
+		a := args[0].(FloatV)
+		return one(FloatV{FPRoundTo(RNA, a.T), a.Bits})
+	case "math.RoundToEven":
+		a := args[0].(FloatV)
+		return one(FloatV{FPRoundTo(RNE, a.T), a.Bits})
 	case "math.Float32frombits":
 		return one(FloatV{FPFromBits(args[0].(IntV).T, 32), 32})
 	case "math.Float64frombits":
